@@ -33,6 +33,42 @@ CHECKS = {
              "class, v-table extents, cell ownership and that every address lies in the policy's dispatch data, on "
              "lattice-heavy generated registries; ASan/UBSan watch the real update and resolve.",
         design="5/C04"),
+    "C05": dict(
+        technique="runtime invariant monitor on the installed hash (injectivity, range, control table, probes) + budget fault hook",
+        text="Exploration with fault injection: hash_initialize is driven directly and through update with histories of "
+             "id sets of every flavour and size 0-600; after each successful install injectivity, range and the checked "
+             "variant's rejection of unregistered probes are verified; the guarded budget hook forces the exhaustion "
+             "branch, which must report hash_search_error / abort, never install a colliding hash.",
+        design="5/C05"),
+    "C06": dict(
+        technique="runtime differential monitor across permutations of registration order (behaviour tables)",
+        text="Exploration: the same registry is registered under all (small) or sampled permutations of class, method and "
+             "definition order; the complete behaviour tables of the real library (calls, error reports, next) must be "
+             "identical.",
+        design="5/C06"),
+    "C07": dict(
+        technique="runtime monitor over random registration histories vs. stateless oracle and fresh re-materialisation",
+        text="Exploration: random add/remove/update histories through the library's own list operations and destructor "
+             "logic; after every update the behaviour table equals the oracle on the live registrations; repeated update "
+             "changes nothing; deferred, hashed, unhashed policies.",
+        design="5/C07"),
+    "C08": dict(
+        technique="runtime differential monitor across presentations of one inheritance graph + slot monitor",
+        text="Exploration: one graph registered under 8-20 legal presentations; behaviour table equals the oracle's on "
+             "the true graph and no two (method, parameter) pairs share a v-table cell.",
+        design="5/C08"),
+    "C09": dict(
+        technique="runtime monitor on virtual_ptr routes (construction, conversion, copy, move, final, shared) vs. plain-reference dispatch",
+        text="Exploration: every construction route of virtual_ptr / virtual_shared_ptr on generated registries, calls "
+             "compared with the plain-reference outcome, accessors compared with the object's address, validity across "
+             "a later update for direct and indirect policies.",
+        design="5/C09"),
+    "C10": dict(
+        technique="runtime differential monitor across RTTI facets / id flavours (behaviour tables)",
+        text="Exploration: one registry under integer, pointer, strided, high-bit, random, aliased (projection) and "
+             "deferred ids, hashed / unhashed / map, 1-3 updates: every table equals the oracle's, every alias id reaches "
+             "its class.",
+        design="5/C10"),
     "C17": dict(
         technique="runtime monitor: update report vs. exhaustive oracle enumeration of argument tuples",
         text="Exploration: the report returned by the real update is compared with an exhaustive enumeration of all "
